@@ -1506,6 +1506,9 @@ ATTR_WRITERS = {
     'yash_semantics::expansion::initial::word::double_quote::quote_field': {'is_quoted': T},
     'yash_semantics::expansion::attr_fnmatch::apply_escapes': {'is_quoted': T, 'is_quoting': T},
     'yash_semantics::expansion::initial::param::switch::attribute': {'origin': 'SoftExpansion'},
+    # fix a6e85c3: the separator joining two quoted fields ("$@") is quoted; the value is computed from the
+    # is_quoting marks of the adjoining fields (decided by C04.R4b)
+    'yash_semantics::expansion::phrase::Phrase::ifs_join': {'is_quoted': 'var'},
 }
 
 
@@ -1607,7 +1610,7 @@ def r5(cx):
             allowed = ATTR_WRITERS.get(body.root, {})
             if f not in allowed or allowed[f] != val:
                 cx.violation(body.root, 'writer:%s' % f, 'AttrChar.%s is changed to %s after construction outside the reviewed '
-                             'writers (double_quote, apply_escapes, switch::attribute)' % (f, val), loc=body.loc(s))
+                             'writers (double_quote, apply_escapes, switch::attribute, ifs_join separator)' % (f, val), loc=body.loc(s))
     cx.floor(nw, 4, 'attribute writes after construction')
     # double_quote marks every character of every shape of phrase
     dq = 'yash_semantics::expansion::initial::word::double_quote'
@@ -1773,11 +1776,13 @@ def r6(cx):
             cx.violation(fn, 'flow:glob->results', 'a field is delivered that is not a result of pathname expansion / quote removal',
                          loc=body.loc(t))
     ifs_const = re.compile(r'^yash_env::variable::(constants::)?IFS$')
-    seeds = {t['dest']['l'] for b, t in body.calls() if any(ifs_const.match(a.get('cdef') or '') for a in t['a'])}
-    seeds |= {s_['lhs']['l'] for b, j, s_ in body.stmts() if s_['k'] == 'assign' and
+    # (a lookup moved into a private helper of the module is seen through: locals of the function keep their numbers when inlining)
+    ib = F.inlined(fn)
+    seeds = {t['dest']['l'] for b, t in ib.calls() if any(ifs_const.match(a.get('cdef') or '') for a in t['a'])}
+    seeds |= {s_['lhs']['l'] for b, j, s_ in ib.stmts() if s_['k'] == 'assign' and
               any(ifs_const.match(o.get('cdef') or '') for o in Q.rvalue_operands(s_['rv']))}
     cx.site('%s: the name constant IFS is used by %d local(s)' % (fn, len(seeds)))
-    t_ifs = Q.forward_taint(body, seeds) if seeds else set()
+    t_ifs = Q.forward_taint(ib, seeds) if seeds else set()
     if Q.operand_local(st['a'][1]) not in t_ifs:
         cx.violation(fn, 'flow:IFS->split', 'field splitting does not use the value of $IFS', loc=body.loc(st))
     _r6_rest(cx, F, fn, body)
@@ -2191,8 +2196,10 @@ _ENV_WRAP = [re.compile(r'^' + re.escape(INIT) + r'Env::<.*>::new$')]
 @RS.rule('C01.R8', 'K-ORDER', 'the $IFS value that splits a word is read after the initial expansion of that word has completed '
          '(${IFS=x} and $((IFS=..)) in the word itself decide how the word is split)')
 def r8(cx):
-    F = cx.F
-    fn = EXP + 'expand_word_multiple'
+    _r8_decide(cx, cx.F, EXP + 'expand_word_multiple')
+
+
+def _r8_decide(cx, F, fn):
     body = F.inlined(fn)
     cx.fn(body.fn)
     for f_ in getattr(body, 'inlined_from', []):
@@ -2286,3 +2293,4 @@ RS.rules.sort(key=lambda r: r.id)
 
 # --- explanation addendum (generated catalogue in DESIGN.md reads RS.explanation)
 RS.explanation += ' Added after the seed waves and the audit: the pattern word of a trim modifier is expanded on every path (R4b); an expansion error in a redirection operand is handled as an expansion error (R4c).'
+RS.explanation += ' (R8) every read of the shell variables whose result reaches the Ifs given to split_into is dominated by the Ready edge of the await of the same word\'s initial expansion, so ${IFS=x} / $((IFS=..)) inside the word decide how that word is split.'
